@@ -399,6 +399,13 @@ def stack(arrays, axis=None, keys=None, align=False, **kwargs):
     # arrays are matched by dimension name, never by position
     arrays = [a if a.dims == arrays[0].dims else a.transpose(arrays[0].dims) for a in arrays]
 
+    # secondary axes must carry the same labels in the same order (also when they have a single element)
+    for a in arrays[1:]:
+        for ax in a.axes:
+            ax0 = arrays[0].axes[ax.name]
+            if ax.size != ax0.size or not np.all(ax.values == ax0.values):
+                raise ValueError('axes are not aligned\n ==> Try passing `align=True`')
+
     # make it a numpy array
     data = [a.values for a in arrays]
     data = np.array(data)
